@@ -63,6 +63,15 @@ def grid_decision(ver, val, path):
             g = Grid(version=ver, metadata={'m': val})
         elif path == 'ctor_colmeta':
             g = Grid(version=ver, columns=[('c', {'m': val})])
+        elif path in ('ctor_meta_of_another_grid', 'ctor_columns_of_another_grid', 'ctor_column_items_of_another_grid'):
+            # a header copied from a grid of another (here: detected) version: its values were validated against THAT grid only
+            src = Grid(columns=[('c', {'m': val})], metadata={'m': val})
+            if path == 'ctor_meta_of_another_grid':
+                g = Grid(version=ver, metadata=src.metadata)
+            elif path == 'ctor_columns_of_another_grid':
+                g = Grid(version=ver, columns=src.column)
+            else:
+                g = Grid(version=ver, columns=list(src.column.items()))
         else:
             g = Grid(version=ver, columns=[('c', {})])
             if path == 'meta_store':
@@ -97,7 +106,7 @@ def grid_decision(ver, val, path):
     return r
 
 
-PATHS = ['ctor_meta', 'ctor_colmeta', 'meta_store', 'meta_overwrite', 'meta_append', 'meta_add_item', 'colmeta_store', 'colmeta_extend',
+PATHS = ['ctor_meta', 'ctor_colmeta', 'ctor_meta_of_another_grid', 'ctor_columns_of_another_grid', 'ctor_column_items_of_another_grid', 'meta_store', 'meta_overwrite', 'meta_append', 'meta_add_item', 'colmeta_store', 'colmeta_extend',
          'append', 'insert', 'extend', 'iadd', 'setitem']
 
 
